@@ -151,10 +151,20 @@ func concSettle(ignore map[uint64]bool, watchdog time.Duration) (concSnap, bool)
 
 // concQuiesce waits until no goroutine of the materialisation is left; returns how many remain.
 func concQuiesce(ignore map[uint64]bool, watchdog time.Duration) int {
+	return concQuiesceExcept(ignore, watchdog, nil)
+}
+
+// concQuiesceExcept: like concQuiesce, but when a reader that outlived its terminal sits inside a slow provider call
+// (slow() is true) and everything that is left is blocked, nothing will move until the environment releases that
+// call: this is the state the next materialisation of a `slowret` case is meant to meet.
+func concQuiesceExcept(ignore map[uint64]bool, watchdog time.Duration, slow func() bool) int {
 	deadline := time.Now().Add(watchdog)
 	for i := 0; ; i++ {
 		s := concScan(ignore)
 		if s.relevant == 0 {
+			return 0
+		}
+		if slow != nil && slow() && s.blocked == s.relevant {
 			return 0
 		}
 		if time.Now().After(deadline) {
@@ -299,6 +309,7 @@ type concProbe struct {
 	log      *concLog
 	gate     *concGate // non-nil: every Emit parks until released (honouring ctx)
 	parkAt   int       // >=0: only this Emit call parks, and only ctx.Done() wakes it (D5 recipe); -1: none
+	slowret  int       // the parked call takes this many ms to return after its ctx was cancelled (slow to cancel)
 	errAt    int       // Emit call index that fails; -1: none
 	yield    int       // slow source: Gosched this many times per Emit
 	entered  chan int  // receives the call index when an Emit call has started (buffered)
@@ -315,6 +326,23 @@ type concProbe struct {
 	closeInEmit atomic.Bool // Close called while an Emit was running
 	closes      atomic.Int32
 	parked      atomic.Bool // the Emit call `parkAt` is waiting for its ctx
+	slowWait    atomic.Bool // the cancelled parked call is waiting for the environment before it returns
+	slowRelease chan struct{}
+}
+
+// releaseSlow lets a cancelled-but-still-inside Emit call return; reports whether there was one.
+func (p *concProbe) releaseSlow() bool {
+	if !p.slowWait.Load() {
+		return false
+	}
+	select {
+	case p.slowRelease <- struct{}{}:
+	default:
+	}
+	for i := 0; p.slowWait.Load() && i < 200000; i++ {
+		runtime.Gosched()
+	}
+	return true
 }
 
 func (p *concProbe) Open(ctx context.Context) error {
@@ -364,6 +392,16 @@ func (p *concProbe) Emit(ctx context.Context) (int, error) {
 	if p.parkAt == k {
 		p.parked.Store(true)
 		<-ctx.Done()
+		if p.slowret > 0 {
+			// slow to cancel: the call stays inside the provider until the environment lets it go (a blocked state
+			// for the quiescence detector); the timer is only a safety net
+			p.slowWait.Store(true)
+			select {
+			case <-p.slowRelease:
+			case <-time.After(5 * time.Second):
+			}
+			p.slowWait.Store(false)
+		}
 		p.log.add(fmt.Sprintf("r%dc", g))
 		return 0, ctx.Err()
 	}
@@ -418,6 +456,8 @@ type concCase struct {
 	child    bool   // run in a re-exec'd child process (the case may crash the process)
 	ofail    string // "" | "err" | "panic": a lifecycle element placed AFTER the async stage whose Open fails
 	rep      int    // materialise the SAME stream value this many times (>= 1)
+	bare     bool   // the source is a bare provider function (NewSimpleStream(f), no lifecycle elements: no Open, no Close)
+	slowret  int    // ms the parked Emit call needs to return after its ctx was cancelled
 	lastfull bool   // the last materialisation runs without early stop / failure / cancel / park: it must deliver everything
 }
 
@@ -476,6 +516,10 @@ func parseConcCase(text string) (*concCase, error) {
 			cc.child = v == "1"
 		case "ofail":
 			cc.ofail = v
+		case "bare":
+			cc.bare = v == "1"
+		case "slowret":
+			cc.slowret = atoi()
 		case "lastfull":
 			cc.lastfull = v == "1"
 		case "rep":
@@ -648,6 +692,13 @@ func (r *concRun) baseStream() stream.Stream[int] {
 	}
 	cc := r.cc
 	src := stream.NewStream[int](r.src)
+	if cc.bare {
+		// no lifecycle elements at all: the provider is "open" from the start, is never closed, and keeps its
+		// cursor and call count across materialisations
+		r.src.log.add(fmt.Sprintf("o%d", r.src.log.g()))
+		r.src.opened.Store(true)
+		src = stream.NewSimpleStream[int](r.src.Emit)
+	}
 	cmap := func(s stream.Stream[int]) stream.Stream[int] {
 		return stream.MapWithErrAndCtx(s, r.mapper, stream.WithConcurrentMapOption(cc.c))
 	}
@@ -723,6 +774,12 @@ func (r *concRun) build() func() error {
 					}
 					if err != nil {
 						return i, err
+					}
+				}
+				if cc.slowret > 0 && cc.park >= 0 {
+					// history cases: the consumer returns while the writer goroutine sits inside the source's Emit
+					for i := 0; i < 4000 && !r.src.parked.Load(); i++ {
+						time.Sleep(50 * time.Microsecond)
 					}
 				}
 				return cc.reads, nil
@@ -873,6 +930,10 @@ func (r *concRun) materialise(root context.Context, rootCancel context.CancelFun
 				}
 				continue
 			}
+			if r.src.releaseSlow() {
+				// the terminal is waiting for its reader, which is slow to leave the provider: let it go now
+				continue
+			}
 			if (cc.cancel > step || r.src.parked.Load()) && !cancelled {
 				// nothing else to do: deliver the scripted cancel now; also when the reader is parked inside Emit
 				// for good (park=k): the terminal legitimately waits for its source, the environment cancels
@@ -947,7 +1008,7 @@ func concRunOnce(cc *concCase) concObs {
 	}
 	base := concScan(nil) // goroutines left over by earlier cases (only after a reported leak) are ignored
 	r := &concRun{cc: cc, log: &concLog{}, mgate: newConcGate(), cgate: newConcGate(), ignore: base.ids}
-	r.src = &concProbe{n: cc.n, log: r.log, parkAt: cc.park, errAt: cc.se, yield: cc.yield}
+	r.src = &concProbe{n: cc.n, log: r.log, parkAt: cc.park, errAt: cc.se, yield: cc.yield, slowret: cc.slowret, slowRelease: make(chan struct{}, 1)}
 	if cc.sg {
 		r.src.gate = newConcGate()
 	}
@@ -969,12 +1030,15 @@ func concRunOnce(cc *concCase) concObs {
 		}
 		cl := r.materialise(root, rootCancel, &obs)
 		classes = append(classes, cl)
+		if i > 0 {
+			r.src.releaseSlow() // a reader left behind by an earlier materialisation has met this one by now
+		}
 		if cl == "hang" {
 			break
 		}
 		if i+1 < cc.rep {
 			// the next materialisation starts when the previous one has wound down
-			if left := concQuiesce(r.ignore, time.Second); left > 0 {
+			if left := concQuiesceExcept(r.ignore, time.Second, r.src.slowWait.Load); left > 0 {
 				obs.leak += left
 			}
 			obs.trace = append(obs.trace, "|")
@@ -982,6 +1046,7 @@ func concRunOnce(cc *concCase) concObs {
 		}
 	}
 	obs.res = strings.Join(classes, "/")
+	r.src.releaseSlow()
 	// after the terminal returned nothing more is released: whatever the library started must exit by itself
 	obs.leak += concQuiesce(r.ignore, time.Second)
 	if obs.leak > 0 {
